@@ -76,9 +76,9 @@ func TestC06Watches(t *testing.T) {
 	dbTest(t, "C06", "TestC06Watches", ruleC06, profC06, Options{})
 }
 
-var profC07 = Profile{W: with(baseWeights(), map[int]int{opDelete: 5, opChanges: 3, opNext: 9, opCloseIter: 1, opGC: 2, opSnapshot: 2}), GC: 40, TwoTxns: true, FewKeys: false}
+var profC07 = Profile{W: with(baseWeights(), map[int]int{opDelete: 5, opChanges: 3, opNext: 9, opCloseIter: 1, opGC: 5, opSnapshot: 2}), GC: 60, TwoTxns: true, FewKeys: false}
 
-const ruleC07 = "histories with up to 4 change iterators created at arbitrary points (also inside transactions that already wrote), Next called with a monotone choice of fresh ReadTxn, retained snapshot or an open WriteTxn (holding uncommitted writes on the observed table or not), consuming k<n or all changes, Close, and (40% of cases) graveyard collection in between; checked: strictly increasing revisions, every delivered change is an object version / deletion committed in the snapshot passed, after full consumption the replayed deliveries equal that snapshot and every deletion since the iterator's creation was delivered, an open watch comes with no changes and closes exactly at the next commit that changes the table. Non-trivial = an iterator that was delivered a deletion and had a partial consumption or a collector round in between, or a Next with a WriteTxn holding uncommitted writes; distinct by case encoding."
+const ruleC07 = "histories with up to 4 change iterators created at arbitrary points (also inside transactions that already wrote), Next called with a monotone choice of fresh ReadTxn, retained snapshot or an open WriteTxn (holding uncommitted writes on the observed table or not), consuming k<n or all changes, Close, and (60% of cases) graveyard collection rounds (scan, park, release) in between; checked: strictly increasing revisions, every delivered change is an object version / deletion committed in the snapshot passed, after full consumption the replayed deliveries equal that snapshot and every deletion since the iterator's creation was delivered, an open watch comes with no changes and closes exactly at the next commit that changes the table. Non-trivial = an iterator that was delivered a deletion and had a partial consumption or a collector round in between, or a Next with a WriteTxn holding uncommitted writes; distinct by case encoding."
 
 func TestC07Changes(t *testing.T) {
 	dbTest(t, "C07", "TestC07Changes", ruleC07, profC07, Options{})
